@@ -166,8 +166,18 @@ def run(pid, tier, seed):
             "explanation": "states/transitions = states of real executions on which TLC evaluated every property formula "
                            "(trace validation); model-checking numbers of the design model are reported under 'mc' when present",
         }
+        assumptions_extra = []
+        if pid in ("C06", "C07"):
+            # the restart clauses of C06/C07 are decided on restores of real journals
+            import journal_engine
+            jr = journal_engine.run(pid, tier, seed)
+            violations += jr["violations"]
+            coverage["restart_clause"] = jr["coverage"]
+            coverage["states"] += jr["coverage"]["states"]
+            coverage["transitions"] += jr["coverage"]["transitions"]
+            assumptions_extra = jr["assumptions"]
         return {"level": "model_checking", "coverage": coverage, "violations": violations,
-                "assumptions": ["fake task launcher: a task ends only by harness choice or by honouring its stop signal",
+                "assumptions": assumptions_extra + ["fake task launcher: a task ends only by harness choice or by honouring its stop signal",
                                 "infrastructure messages (NewWorker/LostWorker/NewResourceRequest) are delivered eagerly",
                                 "socket/heartbeat layer replaced by the prologue/epilogue of worker_rpc_loop re-stated in tako::verif"]}
     finally:
